@@ -34,28 +34,30 @@ var vnoCfg = []vcfg{{Fmt: 2, Codec: CompressionNone, Level: CompressionLevelDefa
 
 // record configurations for bodies that nest records (Produce request, Fetch response)
 var vnestCfgs = []vcfg{
-	{0, CompressionNone, CompressionLevelDefault},
-	{1, CompressionNone, CompressionLevelDefault},
-	{1, CompressionGZIP, CompressionLevelDefault},
-	{1, CompressionSnappy, CompressionLevelDefault},
-	{1, CompressionLZ4, CompressionLevelDefault},
-	{2, CompressionNone, CompressionLevelDefault},
-	{2, CompressionGZIP, CompressionLevelDefault},
-	{2, CompressionSnappy, CompressionLevelDefault},
-	{2, CompressionLZ4, CompressionLevelDefault},
-	{2, CompressionZSTD, CompressionLevelDefault},
+	{0, CompressionNone, CompressionLevelDefault, false},
+	{1, CompressionNone, CompressionLevelDefault, false},
+	{1, CompressionGZIP, CompressionLevelDefault, false},
+	{1, CompressionSnappy, CompressionLevelDefault, false},
+	{1, CompressionLZ4, CompressionLevelDefault, false},
+	{2, CompressionNone, CompressionLevelDefault, false},
+	{2, CompressionGZIP, CompressionLevelDefault, false},
+	{2, CompressionSnappy, CompressionLevelDefault, false},
+	{2, CompressionLZ4, CompressionLevelDefault, false},
+	{2, CompressionZSTD, CompressionLevelDefault, false},
+	{Fmt: 2, Codec: CompressionNone, Level: CompressionLevelDefault, Mixed: true},
+	{Fmt: 1, Codec: CompressionNone, Level: CompressionLevelDefault, Mixed: true},
 }
 
 func vcodecCfgs(fmts ...int) []vcfg {
 	var out []vcfg
 	for _, f := range fmts {
-		out = append(out, vcfg{f, CompressionNone, CompressionLevelDefault})
+		out = append(out, vcfg{f, CompressionNone, CompressionLevelDefault, false})
 		for _, l := range []int{CompressionLevelDefault, 1, 6, 9, 0, -1, -2} {
-			out = append(out, vcfg{f, CompressionGZIP, l})
+			out = append(out, vcfg{f, CompressionGZIP, l, false})
 		}
 		for _, c := range []CompressionCodec{CompressionSnappy, CompressionLZ4, CompressionZSTD} {
 			for _, l := range []int{CompressionLevelDefault, 3} {
-				out = append(out, vcfg{f, c, l})
+				out = append(out, vcfg{f, c, l, false})
 			}
 		}
 	}
